@@ -57,20 +57,22 @@ def decryptPipe (c : Crypto) (cd : Codec) (P : EncParams) (o : DecryptOpts) (r :
         let keyName := if o.keyName.isEmpty then m.keyName else o.keyName
         if keyName.isEmpty then ([], .err .keyMissing)
         else
-          let fk0 := o.unwrap m keyName
-          let fk := if fk0.length ≠ P.fkLen then List.replicate P.fkLen 0 else fk0
+          let fk := effKey true P o m keyName
           match verifyHeader c cd P fk mline macline with
           | some e => ([], .err e)
           | none =>
-            let fn := decryptSeg c P m.cph (payloadKey c P fk m.np) m.np
-            let res := processSegments (P.segSize + P.overhead) P.maxSeg fn r'
-            (psWrites fn res, res.term)
+            if unwrapFailed true P o m keyName then ([], .err .signature)
+            else
+              let fn := decryptSeg c P m.cph (payloadKey c P fk m.np) m.np
+              let res := processSegments (P.segSize + P.overhead) P.maxSeg fn r'
+              (psWrites fn res, res.term)
 
 /-- `Encrypt` as producer: the header in one write, then one write per segment. -/
 def encryptPipe (c : Crypto) (cd : Codec) (P : EncParams) (o : EncryptOpts) (fk np wfk : Bytes) (r : Reader) :
     List Bytes × Terminal :=
   let header := signHeader c cd P fk (cd.render (mkManifest o wfk np))
-  if header.length > P.segSize then ([], .err .hdrInvalidFormat)
+  if wfk.isEmpty then ([], .err .emptyWrappedKey)
+  else if header.length > P.segSize then ([], .err .hdrInvalidFormat)
   else
     let fn := encryptSeg c P o.cph (payloadKey c P fk np) np
     let res := processSegments P.segSize P.maxSeg fn r
